@@ -3,14 +3,18 @@
 package httpp
 
 import (
+	"encoding/json"
 	"fmt"
 	"net/http"
 	"net/http/httptest"
 	"net/url"
+	"os"
+	"path/filepath"
 	"strings"
 	"testing"
 	"time"
 
+	"github.com/bluenviron/mediamtx/internal/conf"
 	"github.com/bluenviron/mediamtx/internal/test"
 	"github.com/bluenviron/mediamtx/internal/verifutil"
 )
@@ -35,8 +39,37 @@ func verifC05Op(origin string, allow []string) string {
 	return sb.String()
 }
 
+var verifC05DepKeys = []string{"apiAllowOrigin", "metricsAllowOrigin", "pprofAllowOrigin", "playbackAllowOrigin", "hlsAllowOrigin", "webrtcAllowOrigin"}
+
+// verifC05ViaConf loads a configuration that sets only the DEPRECATED singular parameter and returns the
+// allow list the corresponding server would be started with (glue between configuration and handler).
+func verifC05ViaConf(k int, v string) ([]string, bool) {
+	dir, err := os.MkdirTemp("", "vc05")
+	if err != nil {
+		return nil, false
+	}
+	defer os.RemoveAll(dir)
+	fp := filepath.Join(dir, "mediamtx.yml")
+	js, _ := json.Marshal(v)
+	if err = os.WriteFile(fp, []byte(verifC05DepKeys[k]+": "+string(js)+"\n"), 0o644); err != nil {
+		return nil, false
+	}
+	c, _, err := conf.Load(fp, nil, test.NilLogger)
+	if err != nil {
+		return nil, false
+	}
+	return [][]string{c.APIAllowOrigins, c.MetricsAllowOrigins, c.PPROFAllowOrigins, c.PlaybackAllowOrigins,
+		c.HLSAllowOrigins, c.WebRTCAllowOrigins}[k], true
+}
+
 func verifC05Exec(op string) string {
 	f := strings.Fields(op)
+	dep := -1
+	if strings.HasPrefix(f[0], "corsdep") {
+		dep = verifutil.Atoi(f[0][len("corsdep"):])
+		f[0] = "cors"
+		op = strings.Join(f, " ")
+	}
 	origin := verifutil.UnHexS(f[1])
 	n := verifutil.Atoi(f[5])
 	allow := make([]string, 0, n)
@@ -46,6 +79,16 @@ func verifC05Exec(op string) string {
 	// the oracle columns must be what url.Parse says now (a corpus line could be stale)
 	if verifC05Op(origin, allow) != op {
 		return "stale-oracle"
+	}
+	if dep >= 0 {
+		if len(allow) != 1 {
+			return "bad-op"
+		}
+		l, ok := verifC05ViaConf(dep, allow[0])
+		if !ok {
+			return "conf-rejected"
+		}
+		allow = l
 	}
 	// go through the stable seam: a Server configured with AllowOrigins, its whole handler chain,
 	// one request carrying the Origin header (no network I/O: the chain is invoked directly)
@@ -182,12 +225,16 @@ func verifC05Gen(r *verifutil.Rand, i int, thorough bool) []string {
 	for j := 0; j < n; j++ {
 		allow = append(allow, verifC05Allowed(r))
 	}
+	if len(allow) == 1 && r.Chance(1, 12) {
+		// the same decision, with the allow list configured through the deprecated singular parameter
+		return []string{"corsdep" + fmt.Sprint(r.Intn(6)) + verifC05Op(verifC05Origin(r, allow), allow)[len("cors"):]}
+	}
 	return []string{verifC05Op(verifC05Origin(r, allow), allow)}
 }
 
 func TestVerifC05(t *testing.T) {
 	verifutil.Main(t, &verifutil.Harness{
-		ID: "C05", Exec: verifC05Exec, Gen: verifC05Gen, Quick: 6000, Thorough: 300000,
+		ID: "C05", Exec: verifC05Exec, Gen: verifC05Gen, Quick: 4000, Thorough: 200000,
 		Class: func(op, impl string) string { return impl },
 		NonTrivial: func(op, impl string) bool { return !strings.HasSuffix(op, " 0") },
 	})
